@@ -32,7 +32,8 @@ def same_as(ctx, got, exp):
     return same(ctx, got, as_ref(ctx, exp))
 
 
-def ds_op(ctx, struct, op, dim, args=None, attrs_kept=True):
+def ds_op(ctx, struct, op, dim, args=None, attrs_kept=True, under=None):
+    ctx.under(under)
     args = args or {}
     ds, st = build(ctx, STRUCTS[struct], nan=bool(args.get('nan')))
     ds.attrs['title'] = 'T'
